@@ -55,7 +55,7 @@ def splitmix64 (x : UInt64) : UInt64 :=
 
 inductive Sig where
   | zero | index | noise (seed : UInt64) | poly (deg : Nat) (seed : UInt64)
-  | sine (f : Float) | impulse (pos : Nat)
+  | sine (f : Float) | impulse (pos : Nat) | tiny32 (seed : UInt64) | tiny64 (seed : UInt64)
 
 def Sig.parse (s : String) : Option Sig :=
   let h := s.take 1
@@ -71,6 +71,8 @@ def Sig.parse (s : String) : Option Sig :=
     | _ => none
   else if h == "s" then (hexF64 t).map .sine
   else if h == "k" then t.toNat?.map .impulse
+  else if h == "d" then t.toNat?.map fun n => .tiny32 n.toUInt64
+  else if h == "e" then t.toNat?.map fun n => .tiny64 n.toUInt64
   else none
 
 def polyCoeff (seed : UInt64) (k : Nat) : Float :=
@@ -78,8 +80,14 @@ def polyCoeff (seed : UInt64) (k : Nat) : Float :=
 
 def pi64 : Float := Float.ofBits 0x400921FB54442D18
 
+def noiseValue (seed : UInt64) (ch g : Nat) : Float :=
+  let h := splitmix64 (seed ^^^ (ch.toUInt64 * K1) ^^^ (g.toUInt64 * K2))
+  (h >>> 11).toFloat * (1.0 / 4503599627370496.0) - 1.0
+
 def Sig.value (sg : Sig) (ch : Nat) (g : Nat) : Float :=
   match sg with
+  | .tiny32 seed => noiseValue seed ch g * Float.ofBits 0x3730000000000000
+  | .tiny64 seed => noiseValue seed ch g * Float.ofBits 0x0000000400000000
   | .zero => 0.0
   | .index => g.toUInt64.toFloat + 0.25 * ch.toUInt64.toFloat
   | .noise seed =>
